@@ -223,3 +223,36 @@ func init() {
 	H["(github.com/benbjohnson/clock.Clock).Ticker"] = tick
 	H["time.NewTicker"] = tick
 }
+
+func init() {
+	H := libHandlers
+	// proto.Marshal of the generated gossip messages: assumed not to fail (listed)
+	H["google.golang.org/protobuf/proto.Marshal"] = func(fr *Frame, st *State, c *ast.CallExpr, fn *types.Func) []Val {
+		x := fr.x
+		x.used("proto.Marshal: returns some bytes and a nil error for the generated message types used here")
+		fr.expr(st, c.Args[0])
+		b := x.havocVal("pb", bytesT())
+		x.u.fact("(not (snil_Int " + b.T + "))")
+		return []Val{b, {T: "0", S: "Int", Ty: errT()}}
+	}
+	// the node's guardian signer: assumed to work (the code panics by design otherwise)
+	H["(github.com/alephium/wormhole-fork/node/pkg/ecdsasigner.ECDSASigner).Sign"] = func(fr *Frame, st *State, c *ast.CallExpr, fn *types.Func) []Val {
+		x := fr.x
+		x.used("guardianSigner.Sign: assumed to succeed; result is a 65-byte signature valid over the digest (ecrec_ok)")
+		x.u.fixedSort(32)
+		x.u.fixedSort(65)
+		x.need("ecrec")
+		fr.recvOf(st, c)
+		d := fr.expr(st, c.Args[0])
+		sig := x.havocVal("sig", bytesT())
+		x.u.gfact(st.pc, fmt.Sprintf("(and (= (slen_Int %s) 65) (not (snil_Int %s)) (=> (= (slen_Int %s) 32) (ecrec_ok (from32 %s) (from65 %s))))", sig.T, sig.T, d.T, d.T, sig.T))
+		return []Val{sig, {T: "0", S: "Int", Ty: errT()}}
+	}
+}
+
+func init() {
+	libHandlers["(github.com/alephium/wormhole-fork/node/pkg/ecdsasigner.ECDSASigner).PublicKey"] = func(fr *Frame, st *State, c *ast.CallExpr, fn *types.Func) []Val {
+		fr.recvOf(st, c)
+		return []Val{fr.x.havocVal("pub", resT(fn, 0))}
+	}
+}
